@@ -122,6 +122,12 @@ func (e *c16Env) argMap(j, rep, variant int) value.Map {
 	vals := []value.Value{value.Int(a), value.Int(10), value.Int(a + 1), value.Int(10), value.Int(2), value.Int(-1), value.Int(4), value.Int(100), value.Int(8),
 		l, value.NewList(intList(7, 8)...), lazyList(intList(1, 1, 2), true), value.String([]string{"hi", "", "é"}[j%3]), value.Bool(j%2 == 0), value.Float(1.5), inner, mf, e.clo1, e.clo2,
 		value.Int(999), value.Int(0), value.Int(77), e.clo2, value.Int(5), value.String("unused")}
+	if j%2 == 1 {
+		// closures stored under the names of map methods: `get(1)` in map mode calls the closure, and so does the literal
+		// spelling `m.get(1)` (a closure field wins over the method of that name)
+		keys = append(keys, "get", "list", "put", "accept", "replace", "combine")
+		vals = append(vals, e.clo1, e.clo2, e.clo1, e.clo1, e.clo2, e.clo1)
+	}
 	drop := map[string]bool{}
 	switch variant {
 	case 1:
@@ -537,6 +543,12 @@ var c16Corpus = []string{
 	"switch §a§ case 1 : \"one\" case 3 : let s2 = \"th\"; s2 + §s§ default §s§ + \"many\"",
 	"(if §t§ then (v -> v + §a§) else (v -> v - §a§))(10)",
 	"{x: §a§, y: [1].map(v -> v + §b§)}.y",
+	// attributes named like map methods, holding closures, in call position
+	"§get§(§a§)",
+	"§list§(1, 2) + §put§(§a§)",
+	"[1, 2].map(v -> §accept§(v) + §a§).sum()",
+	"§replace§(§a§, §b§) + §combine§(3)",
+	"func h1(p) if p <= 0 then §get§(§a§) else h1(p - 1) + §put§(p); h1(2)",
 	// unknown attribute
 	"§nosuch§ + 1",
 	"[1].map(v -> v + §nosuch§)",
